@@ -60,3 +60,34 @@ def reach_plus(names, present, edge):
 def acyclic(names, present, edge):
     R = reach_plus(names, present, edge)
     return z3.And([z3.Not(R[(n, n)]) for n in names])
+
+
+def sym_values(order, A, X, possible=None):
+    """Boolean value term of every node of a circuit whose STRUCTURE is symbolic (types and edges are terms).
+    order: node names in an order in which every possible edge goes forward; X: node -> free variable (used when the
+    node is an input / blackbox output).  Gates are assumed driven (pre-condition)."""
+    val = {}
+    for i, v in enumerate(order):
+        t = A.typ(v)
+        ins = []
+        for u in order[:i]:
+            if possible is not None and not possible(u, v):
+                continue
+            e = A.edge(u, v)
+            if z3.is_false(e):
+                continue
+            ins.append((e, val[u]))
+        if ins:
+            a_ = z3.And([z3.Implies(e, x) for e, x in ins])
+            o_ = z3.Or([z3.And(e, x) for e, x in ins])
+            x_ = z3.BoolVal(False)
+            for e, x in ins:
+                x_ = z3.Xor(x_, z3.And(e, x))
+        else:
+            a_, o_, x_ = z3.BoolVal(True), z3.BoolVal(False), z3.BoolVal(False)
+        r = X[v]
+        for ty, term in (("0", z3.BoolVal(False)), ("1", z3.BoolVal(True)), ("buf", o_), ("bb_input", o_), ("not", z3.Not(o_)), ("and", a_), ("nand", z3.Not(a_)),
+                         ("or", o_), ("nor", z3.Not(o_)), ("xor", x_), ("xnor", z3.Not(x_))):
+            r = z3.If(t == TS[ty], term, r)
+        val[v] = r
+    return val
